@@ -478,7 +478,9 @@ class Background2D:
 
         # mask boxes with too few unmasked pixels
         ngood = np.count_nonzero(~np.isnan(data), axis=axis)
-        box_mask = ngood <= self._good_npixels_threshold
+        # exclude boxes with more than exclude_percentile percent of
+        # their pixels masked; completely masked boxes are always excluded
+        box_mask = (ngood < self._good_npixels_threshold) | (ngood == 0)
 
         if np.ndim(bkg) == 0:
             if box_mask:  # single corner box
